@@ -139,7 +139,8 @@ type site struct {
 	NCustom int
 	Custom  func(t *T, c int)
 	// Random-mask sites (long sequences, thorough only): NRandom cases, mask from the case PRNG.
-	NRandom int
+	NRandom  int
+	DynSteps func(L int) []step
 
 	failable []int // bits that can fail, ascending
 }
@@ -206,8 +207,11 @@ type T struct {
 	beh      int
 	raised   any
 	exec     *inlineExec
-	hcfg     int
 	custNote string
+
+	pulled     int  // elements pulled from instrumented iterators
+	nonTrivial bool // a failure had to be propagated / a user function had to stay un-invoked
+	skipped    int  // user functions of the call that correctly stayed un-invoked
 }
 
 func (t *T) bit(k int) bool { return k >= 0 && t.mask&(1<<uint(k)) != 0 }
@@ -496,7 +500,11 @@ func (t *T) compareLog(want []ev) bool {
 	}
 	for _, e := range got {
 		if !wantIDs[e.ID] {
-			t.violate("callback-after-failure", fmt.Sprintf("user function %s was invoked although an operand to its left had already failed; expected calls: %v", evName(e.ID), logStrings(want)))
+			if t.s.Custom != nil {
+				t.violate("unexpected-user-function-call", fmt.Sprintf("user function %s must not run in this situation (%s); expected calls: %v", evName(e.ID), t.custNote, logStrings(want)))
+			} else {
+				t.violate("callback-after-failure", fmt.Sprintf("user function %s was invoked although a position to its left had already failed; expected calls: %v", evName(e.ID), logStrings(want)))
+			}
 			return false
 		}
 	}
